@@ -236,8 +236,7 @@ Definition chain_ok (sh dt : list desc) (ind : list (option (list desc))) (c : c
 
 Definition all_idxs (chains : list chain) : list N := concat (map c_idxs chains).
 
-Definition Inv (s : qstate) (chains : list chain) : Prop :=
-  exists fl,
+Definition InvFl (s : qstate) (chains : list chain) (fl : list N) : Prop :=
     NoDup (fl ++ all_idxs chains)
     /\ lenN (fl ++ all_idxs chains) = q_size s
     /\ (forall i, In i (fl ++ all_idxs chains) -> i < q_size s)
@@ -249,6 +248,8 @@ Definition Inv (s : qstate) (chains : list chain) : Prop :=
     /\ lenN (q_ind s) = q_size s /\ lenN (q_aring s) = q_size s
     /\ q_aidx s = q_avail_idx s /\ q_avail_idx s < two16 /\ q_last_used s < two16
     /\ (exists k, k <= 15 /\ q_size s = 2 ^ k).
+
+Definition Inv (s : qstate) (chains : list chain) : Prop := exists fl, InvFl s chains fl.
 
 Lemma dchain_ext sh sh' idxs bufs :
   (forall i, In i idxs -> nthN_error sh' i = nthN_error sh i) -> dchain sh idxs bufs -> dchain sh' idxs bufs.
@@ -406,11 +407,11 @@ Proof. unfold shares_of. now rewrite flat_map_app. Qed.
 Lemma unshares_of_app a b : unshares_of (a ++ b) = unshares_of a ++ unshares_of b.
 Proof. unfold unshares_of. now rewrite flat_map_app. Qed.
 
-Lemma add_direct_inv s chains bufs :
-  Inv s chains -> bufs <> [] -> bufs_ok bufs -> q_num_used s + lenN bufs <= q_size s ->
+Lemma add_direct_invfl s chains fl bufs :
+  InvFl s chains fl -> bufs <> [] -> bufs_ok bufs -> q_num_used s + lenN bufs <= q_size s ->
   exists s' evs idxs dl,
     add_direct s bufs = (Ok (q_free_head s), s', evs)
-    /\ Inv s' (chains ++ [mkChain (q_free_head s) idxs bufs None])
+    /\ InvFl s' (chains ++ [mkChain (q_free_head s) idxs bufs None]) (skipn (length bufs) fl)
     /\ same_rings s s'
     /\ idxs <> [] /\ hd 0 idxs = q_free_head s /\ length idxs = length bufs
     /\ idxs = free_take (q_shadow s) (q_free_head s) (length bufs)
@@ -418,7 +419,7 @@ Lemma add_direct_inv s chains bufs :
     /\ (forall j, ~ In j idxs -> nthN_error (q_dtable s') j = nthN_error (q_dtable s) j)
     /\ q_num_used s' = q_num_used s + lenN bufs.
 Proof.
-  intros (fl & Hnd & Hlen & Hrange & Hnu & Hseg & Hch & Hind & Hlsh & Hldt & Hlind & Hlring & Hai & Hav & Hlu & Hpow)
+  intros (Hnd & Hlen & Hrange & Hnu & Hseg & Hch & Hind & Hlsh & Hldt & Hlind & Hlring & Hai & Hav & Hlu & Hpow)
          Hne Hok Hcap.
   rewrite lenN_app in Hlen.
   assert (Hfl : lenN bufs <= lenN fl) by lia.
@@ -448,7 +449,7 @@ Proof.
   { unfold idxs. apply firstn_length_le. exact Hfl. }
   split. { unfold add_direct. rewrite Hrun, Hdl. reflexivity. }
   split.
-  { exists (skipn n fl). cbn [set_core q_size q_num_used q_free_head q_shadow q_dtable q_ind q_aring q_aidx
+  { unfold InvFl. fold n. cbn [set_core q_size q_num_used q_free_head q_shadow q_dtable q_ind q_aring q_aidx
                               q_avail_idx q_last_used].
     rewrite all_idxs_snoc. cbn [c_idxs].
     pose proof (perm_take n fl (all_idxs chains)) as Hperm. fold idxs in Hperm.
@@ -490,6 +491,23 @@ Proof.
   reflexivity.
 Qed.
 
+Lemma add_direct_inv s chains bufs :
+  Inv s chains -> bufs <> [] -> bufs_ok bufs -> q_num_used s + lenN bufs <= q_size s ->
+  exists s' evs idxs dl,
+    add_direct s bufs = (Ok (q_free_head s), s', evs)
+    /\ Inv s' (chains ++ [mkChain (q_free_head s) idxs bufs None])
+    /\ same_rings s s'
+    /\ idxs <> [] /\ hd 0 idxs = q_free_head s /\ length idxs = length bufs
+    /\ idxs = free_take (q_shadow s) (q_free_head s) (length bufs)
+    /\ evs = direct_evs idxs bufs (q_free_head s') ++ [QStoreDesc (last idxs 0) (clear_next dl)]
+    /\ (forall j, ~ In j idxs -> nthN_error (q_dtable s') j = nthN_error (q_dtable s) j)
+    /\ q_num_used s' = q_num_used s + lenN bufs.
+Proof.
+  intros [fl HI] Hne Hok Hcap.
+  destruct (add_direct_invfl s chains fl bufs HI Hne Hok Hcap) as (s' & evs & idxs & dl & A & B & C).
+  exists s', evs, idxs, dl. split; [exact A|]. split; [eexists; exact B|]. exact C.
+Qed.
+
 Lemma bufs_ok_no_big bufs : bufs_ok bufs -> existsb (fun bw => two32 <=? b_len (fst bw)) bufs = false.
 Proof.
   induction 1 as [|bw l [_ H] _ IH]; [reflexivity|]. simpl. rewrite IH.
@@ -525,7 +543,7 @@ Proof.
   cbn zeta. rewrite Hfh.
   split. { unfold add_indirect. rewrite bufs_ok_no_big by assumption. rewrite Hfh, Hix, Hd. reflexivity. }
   split.
-  { exists fl'. cbn [set_core q_size q_num_used q_free_head q_shadow q_dtable q_ind q_aring q_aidx
+  { exists fl'. unfold InvFl. cbn [set_core q_size q_num_used q_free_head q_shadow q_dtable q_ind q_aring q_aidx
                               q_avail_idx q_last_used].
     rewrite all_idxs_snoc. cbn [c_idxs].
     assert (Hperm : Permutation ((x :: fl') ++ all_idxs chains) (fl' ++ all_idxs chains ++ [x])).
@@ -567,7 +585,7 @@ Proof. rewrite <- N.pred_sub, <- N.ones_equiv. apply N.land_ones. Qed.
 Lemma Inv_set_avail s chains ai ring :
   Inv s chains -> ai < two16 -> lenN ring = q_size s -> Inv (set_avail s ai ring) chains.
 Proof.
-  intros (fl & H) Ha Hr. exists fl. cbn. tauto.
+  intros (fl & H) Ha Hr. exists fl. unfold InvFl in *. cbn. tauto.
 Qed.
 
 Lemma add_refuse_empty s taddr : add s [] [] taddr = (Err EInvalidParam, s, []).
@@ -862,7 +880,7 @@ Proof.
   exists (set_core s (q_num_used s - lenN (c_idxs c)) (c_head c) sh' (q_ind s) dt').
   split. { unfold recycle. rewrite Hdh, Hfl, Hrun. reflexivity. }
   split.
-  { exists (c_idxs c ++ fl). cbn [set_core q_size q_num_used q_free_head q_shadow q_dtable q_ind q_aring q_aidx
+  { exists (c_idxs c ++ fl). unfold InvFl. cbn [set_core q_size q_num_used q_free_head q_shadow q_dtable q_ind q_aring q_aidx
                               q_avail_idx q_last_used].
     rewrite all_idxs_app.
     pose proof (perm_give fl (all_idxs pre) (c_idxs c) (all_idxs post)) as Hperm.
@@ -968,7 +986,7 @@ Proof.
   { intro Hf. eapply NoDup_app_disj; [exact Hnd|exact Hf|].
     apply in_or_app. right. apply in_or_app. left. now left. }
   split.
-  { exists (c_head c :: fl). cbn [set_core q_size q_num_used q_free_head q_shadow q_dtable q_ind q_aring q_aidx
+  { exists (c_head c :: fl). unfold InvFl. cbn [set_core q_size q_num_used q_free_head q_shadow q_dtable q_ind q_aring q_aidx
                               q_avail_idx q_last_used].
     rewrite all_idxs_app.
     pose proof (perm_give fl (all_idxs pre) [c_head c] (all_idxs post)) as Hperm.
@@ -1027,7 +1045,7 @@ Definition pop_evs (c : chain) (bufs : list (ubuf * bool)) (orig : N) : list qev
 
 Lemma Inv_set_last_used s chains lu ue :
   Inv s chains -> lu < two16 -> Inv (set_last_used s lu ue) chains.
-Proof. intros (fl & H) Hl. exists fl. cbn. tauto. Qed.
+Proof. intros (fl & H) Hl. exists fl. unfold InvFl in *. cbn. tauto. Qed.
 
 Lemma pop_ok s pre c post ins outs u_idx u_id u_len :
   Inv s (pre ++ c :: post) ->
@@ -1145,7 +1163,7 @@ Lemma qnew_inv k ind ev : k <= 15 -> Inv (qnew (2 ^ k) ind ev) [].
 Proof.
   intros Hk. set (n := 2 ^ k).
   assert (Hn : 0 < n) by (unfold n; apply N.neq_0_lt_0, N.pow_nonzero; discriminate).
-  exists (seqN 0 (N.to_nat n)). unfold all_idxs. cbn [map concat]. rewrite app_nil_r.
+  exists (seqN 0 (N.to_nat n)). unfold InvFl, all_idxs. cbn [map concat]. rewrite app_nil_r.
   cbn [qnew q_size q_num_used q_free_head q_shadow q_dtable q_ind q_aring q_aidx q_avail_idx q_last_used].
   split; [apply seqN_nodup|].
   split. { unfold lenN. rewrite seqN_length. lia. }
@@ -1162,8 +1180,8 @@ Qed.
 Lemma set_dev_notify_inv s chains en : Inv s chains -> Inv (fst (set_dev_notify s en)) chains.
 Proof.
   intros (fl & H). unfold set_dev_notify. destruct (q_event_idx s); [exists fl; exact H|].
-  exists fl. cbn. tauto.
+  exists fl. unfold InvFl in *. cbn. tauto.
 Qed.
 
 Lemma qset_indices_inv s chains v : Inv s chains -> v < two16 -> Inv (qset_indices s v) chains.
-Proof. intros (fl & H) Hv. exists fl. cbn. tauto. Qed.
+Proof. intros (fl & H) Hv. exists fl. unfold InvFl in *. cbn. tauto. Qed.
